@@ -86,6 +86,41 @@ class C20(E1Prop):
                 for o in seq:
                     o['dt'] = rng.choice([1, 5, 30])
                 self.script = seq
+            elif w.cfg.get('hotfixes') and w.use_queue and \
+                    rng.random() < 0.4:
+                # story: two hotfix branches; a PR went through the queue of
+                # the older one (its queue branch stays behind, empty), a PR
+                # is queued on the newer one, which an admin then wants to
+                # archive
+                h1 = w.cfg['hotfixes'][0]
+                a, b, c = [int(x) for x in h1.split('.')]
+                h2 = '%d.%d.%d' % (a, b, c + 2)
+                devs = [d for d in ops.dest_branches(w.cfg)
+                        if d.startswith('development/')]
+                seq = [{'op': 'tag', 'on': devs[0], 'name': h2 + '.0'},
+                       {'op': 'api', 'job': 'create_branch',
+                        'kwargs': {'branch': 'hotfix/' + h2}},
+                       {'op': 'open_pr', 'actor': 'alice',
+                        'src': 'bugfix/TEST-760', 'dst': 'hotfix/' + h1,
+                        'kind': 'new'},
+                       {'op': 'eval', 'p': 0},
+                       {'op': 'ci_green_all', 'which': ['src', 'w']},
+                       {'op': 'eval', 'p': 0},
+                       {'op': 'ci_green_all', 'which': ['q']},
+                       {'op': 'deliver_all'},
+                       {'op': 'open_pr', 'actor': 'bob',
+                        'src': 'bugfix/TEST-761', 'dst': 'hotfix/' + h2,
+                        'kind': 'new'},
+                       {'op': 'eval', 'p': 1},
+                       {'op': 'ci_green_all', 'which': ['src', 'w']},
+                       {'op': 'eval', 'p': 1},
+                       {'op': 'api', 'job': 'delete_branch',
+                        'kwargs': {'branch': 'hotfix/' + rng.choice(
+                            [h2, h2, h1])}},
+                       {'op': 'deliver_all'}]
+                for o in seq:
+                    o['dt'] = rng.choice([1, 5, 30])
+                self.script = seq
             elif w.cfg.get('hotfixes') and rng.random() < 0.6:
                 # story: a hotfix branch is archived, opened again, gets a
                 # change, and is archived a second time
